@@ -18,7 +18,11 @@ pub struct Gen<'a> {
     pub boundary: bool,
 }
 
-const WORDS: &[&str] = &["", "a", "id", "name", "tag", "héllo", "日本語", "x y", "\u{0}", "zzzzzzzzzzzzzzzz"];
+const WORDS: &[&str] = &[
+    "", "a", "id", "name", "tag", "héllo", "日本語", "x y", "\u{0}", "zzzzzzzzzzzzzzzz",
+    // also names of removed fields in the catalogue's headers
+    "first", "second", "legacy", "older", "cache", "z",
+];
 
 impl<'a> Gen<'a> {
     pub fn new(reg: &'a Registry, size: usize) -> Self {
